@@ -99,8 +99,8 @@ class MinMaxAggregator:
             return
         symbol = head.atom.symbol
         for arg in symbol.arguments:
-            if arg.ast_type not in {ASTType.Variable, ASTType.SymbolicTerm}:
-                return  # nocoverage
+            if arg.ast_type != ASTType.Variable:
+                return  # a use would have to be compared with the constant
 
         mapping = [
             (rest_vars + [max_var]).index(arg) if arg in rest_vars + [max_var] else None for arg in symbol.arguments
